@@ -342,6 +342,22 @@ def binop(eng, op, a, b):
         return a * b
     if isinstance(b, (list, tuple)) and isinstance(op, ast.Mult) and isinstance(a, int):
         return a * b
+    if isinstance(op, ast.Add) and (type(a).__name__ == "SymList" or type(b).__name__ == "SymList"):
+        # list + list where at least one side has a symbolic length (lists of scalars)
+        from . import lazyseq as LZ
+
+        def as_sym(x):
+            if type(x).__name__ == "SymList":
+                return x
+            if isinstance(x, list):
+                items = list(x)
+                return LZ.SymList(len(items), lambda k: select_const(k, [lambda v=v: v for v in items]) if T.is_sym(k) else items[k], scalar=all(T.is_scalar(unwrap(v)) for v in items))
+            raise I.PyRaise("TypeError", ("can only concatenate list to list",))
+        x, y = as_sym(a), as_sym(b)
+        if not (x.scalar and y.scalar):
+            raise Unsupported("concatenation of symbolic lists of non-scalars")
+        n1, i1, i2 = x.length, x.item, y.item
+        return LZ.SymList(T.add(n1, y.length), lambda k: T.ite(T.compare("lt", k, n1), i1(k), i2(T.sub(k, n1))), scalar=True)
     if isinstance(op, ast.Mult) and ((isinstance(a, list) and T.is_sym(b)) or (isinstance(b, list) and T.is_sym(a))):
         # Python sequence repetition by a symbolic count (NOT element-wise multiplication): a list of max(n, 0) * len(seq) items
         seq, n = (a, b) if isinstance(a, list) else (b, a)
@@ -1007,6 +1023,16 @@ def arr_setitem(eng, a, idx, value):
     if any(x is None for x in items):
         raise Unsupported("newaxis in assignment")
     fancy = [x for x in items if isinstance(x, I.Arr)]
+    if len(fancy) == 1 and fancy[0].dtype == "bool" and fancy[0].ndim == 1 and not isinstance(value, (I.Arr, I.Opaque)) \
+            and all(isinstance(x, I.Arr) or (isinstance(x, slice) and x.start is None and x.stop is None and x.step is None) for x in items):
+        # a[:, mask] = scalar  (full slices on the other axes, one boolean mask on one axis)
+        ax = [k for k, x in enumerate(items) if isinstance(x, I.Arr)][0]
+        mfn, old = fancy[0].fn, a.fn
+        if not dim_eq(fancy[0].shape[0], a.shape[ax]) and not eng.proves(T.compare("eq", fancy[0].shape[0], a.shape[ax])):
+            raise I.PyRaise("IndexError", ("boolean index did not match indexed array along the axis",))
+        val = coerce(value, a.dtype)
+        a.fn = lambda *i: T.ite(T.zb(mfn(i[ax])) if T.is_sym(mfn(i[ax])) else bool(mfn(i[ax])), val, old(*i))
+        return
     if fancy:
         return fancy_setitem(eng, a, items, value)
     conds = []   # per axis: function i -> (condition, value-index or None)
